@@ -422,8 +422,9 @@ class Sym:
             if isinstance(c, int): env[ins.res] = a if c else b
             elif isinstance(a, Rat) and isinstance(b, Rat):
                 if a.conc() and b.conc(): return s.fork(st, c, ins.res, a, b, idx)      # two FP constants: one path each
-                if isconst(a.d) and isconst(b.d) and a.d == b.d: env[ins.res] = Rat(z3.If(c, a.n, b.n), a.d)
-                else: env[ins.res] = Rat(z3.If(c, a.n * b.d, b.n * a.d), a.d * b.d)
+                zr = lambda v: z3.RealVal(str(v)) if isconst(v) else v        # python ints / Fractions are not coerced by z3.If
+                if isconst(a.d) and isconst(b.d) and a.d == b.d: env[ins.res] = Rat(z3.If(c, zr(a.n), zr(b.n)), a.d)
+                else: env[ins.res] = Rat(z3.If(c, zr(a.n) * zr(b.d), zr(b.n) * zr(a.d)), a.d * b.d)
             elif isinstance(a, (int, Ptr, tuple)) or isinstance(b, (int, Ptr, tuple)):
                 if isinstance(a, int) and isinstance(b, int) and s.L.res(ty).n == 1:
                     env[ins.res] = z3.If(c, z3.BoolVal(bool(a)), z3.BoolVal(bool(b)))
